@@ -499,6 +499,41 @@ Proof.
   destruct (N.eqb id i); [|reflexivity]. destruct (N.eqb n MAXU64); [|reflexivity]. unfold stake_of. rewrite Hc. reflexivity.
 Qed.
 
+(* the same over a whole block and over a whole chain: stake = initial + sum of what the transactions booked *)
+Fixpoint booked_txs (e : env) (h : N) (ts : list tx) (s : st) (i : N) : Z :=
+  match ts with
+  | [] => 0
+  | t :: r => booked t (snd (run_tx e h t s)) s i + booked_txs e h r (fst (run_tx e h t s)) i
+  end.
+
+Fixpoint booked_chain (e : env) (bs : list (N * list tx)) (s : st) (i : N) : Z :=
+  match bs with
+  | [] => 0
+  | (h, ts) :: r => booked_txs e h ts s i + booked_chain e r (fst (run_block e h ts s)) i
+  end.
+
+Lemma run_txs_stake : forall A I W e h ts s i, universe A I -> supply_bound W -> txs_closed A I ts -> led_inv A I W s ->
+  stake_of (fst (run_txs e h ts s)) i = stake_of s i + booked_txs e h ts s i.
+Proof.
+  intros A I W e h ts. induction ts as [|t r IH]; intros s i HU HW Hcl Hinv; [cbn; lia|].
+  inversion Hcl as [|? ? Hct Hcr]; subst. cbn [run_txs booked_txs].
+  pose proof (run_tx_stake A I W e h t s i HU HW Hct Hinv) as H1.
+  pose proof (run_tx_inv A I W e h t s HU HW Hct Hinv) as H2.
+  destruct (run_tx e h t s) as [s1 x]. cbn [fst snd] in *.
+  specialize (IH s1 i HU HW Hcr H2). destruct (run_txs e h r s1) as [s2 xs]. cbn [fst] in *. lia.
+Qed.
+
+Theorem run_chain_stake : forall A I W e bs s i, universe A I -> supply_bound W ->
+  Forall (fun b => txs_closed A I (snd b)) bs -> led_inv A I W s ->
+  stake_of (run_chain e bs s) i = stake_of s i + booked_chain e bs s i.
+Proof.
+  intros A I W e bs. induction bs as [|[h ts] r IH]; intros s i HU HW Hcl Hinv; [cbn; lia|].
+  inversion Hcl as [|? ? Hcb Hcr]; subst. cbn [run_chain booked_chain snd] in *.
+  rewrite IH by (try assumption; apply run_block_inv; assumption).
+  rewrite run_block_fst at 1. unfold stake_of at 1. rewrite end_block_cur.
+  pose proof (run_txs_stake A I W e h ts s i HU HW Hcb Hinv) as H1. unfold stake_of in H1 at 1. lia.
+Qed.
+
 (* ---------- histories: every block ends at a boundary; the views agree after any guarded chain ---------- *)
 Lemma run_chain_boundary : forall e bs s, boundary s -> boundary (run_chain e bs s).
 Proof.
